@@ -422,7 +422,8 @@ func (loader *Loader) resolveComponent(doc *T, ref string, path *url.URL, resolv
 				}
 			}
 
-			if cursor == nil {
+			// a nil pointer field reached by reflection is a non-nil interface holding a nil pointer
+			if v := reflect.ValueOf(cursor); cursor == nil || v.Kind() == reflect.Ptr && v.IsNil() {
 				return nil, failedToResolveRefFragmentPart(ref, pathPart)
 			}
 		}
